@@ -328,6 +328,11 @@ func mergeStats(res *HarnessResult, w *worker) {
 			s.ErrSamples = append(s.ErrSamples, e)
 		}
 	}
+	for _, e := range t.PanicSamples {
+		if len(s.PanicSamples) < 8 {
+			s.PanicSamples = append(s.PanicSamples, e)
+		}
+	}
 	for _, p := range t.PathSamples {
 		if len(s.PathSamples) < 6 {
 			s.PathSamples = append(s.PathSamples, p)
